@@ -33,7 +33,7 @@ TOL = 1e-6
 
 def floors(tier):
     return {"trajectories": 200, "evaluations_compared": 2500, "multi_trial_searches_compared": 150, "probes": 80, "probe_evaluations_compared": 300,
-            "constant_probes": 10, "trajectories_with_gradient_reusing_forward_state": 50, "trajectories_with_starved_line_searches": 300, "trajectories_with_an_optimisation_nested_in_the_objective": 30, "trajectories_with_inert_differencing_settings": 30, "trajectories_stopped_by_a_callback_and_continued_from_the_result": 40, "failed_searches_compared_through": 3, "box_final_values_compared": 60, "__nontrivial__": 120}
+            "constant_probes": 10, "trajectories_with_gradient_reusing_forward_state": 50, "trajectories_with_starved_line_searches": 300, "trajectories_with_an_optimisation_nested_in_the_objective": 30, "trajectories_with_inert_differencing_settings": 30, "trajectories_stopped_by_a_callback_and_continued_from_the_result": 40, "failed_searches_compared_through": 3, "trajectories_in_25_to_60_dimensions_with_memory_up_to_24": 30, "box_final_values_compared": 60, "__nontrivial__": 120}
 
 
 def cases(tier, seed):
@@ -50,6 +50,14 @@ def cases(tier, seed):
                "nested": bool(i % 6 == 1), "inert_fd": float(gen.pick(rng, [1e-3, 1e-2, 0.1])) if i % 5 == 4 else None,
                "xunit": None}  # (variables in units of 1e-13..1e-17 were tried: the unit-length first trial of iteration 0 is then 1e13 units long and the
         #  interpolated second trial is ill-conditioned in both implementations - not comparable; the wrapper-level effects of such scales are C15's)
+    for i in range(60 if tier == "quick" else 2000):
+        # scale: dimensions, memories and trajectory lengths larger than the bulk of the cases (more iterations than the memory holds)
+        fam = gen.pick(rng, ["qp_quartic", "qp_softplus", "rosenbrock", "qp"])
+        yield {"kind": "traj", "problem": {"family": fam, "n": int(rng.integers(25, 61)), "seed": int(rng.integers(0, 2**31 - 1)),
+                                           "cond": float(np.exp(rng.uniform(0, np.log(1e3)))), "box": "none", "start": "interior"},
+               "maxcor": int(rng.integers(9, 25)), "x0scale": float(gen.pick(rng, [0.5, 1.0])), "hostile": bool(i % 3 == 0), "fscale": 1.0,
+               "prior_is_x0": False, "adjoint": False, "maxls": 20, "maxiter": 40, "stop_at_callback": None, "nested": False, "inert_fd": None, "xunit": None,
+               "large": True}
     # starved line searches on a scaled Rosenbrock valley: a search that uses its two evaluations without finding a lower value makes
     # both implementations drop their memory and restart the iteration; the comparison goes on through such restarts
     for i in range(700 if tier == "quick" else 12000):
@@ -413,6 +421,8 @@ def run(spec):
         mls, mit = int(spec.get("maxls", 20)), int(spec.get("maxiter", 12))
         if mls != 20:
             out.count("trajectories_with_starved_line_searches")
+        if spec.get("large"):
+            out.count("trajectories_in_25_to_60_dimensions_with_memory_up_to_24")
         ppts, searches, pres, consts, ic = port_trace(fobj, gobj, x0_port, spec["maxcor"], hostile=bool(spec.get("hostile")), x0_same_object=bool(spec.get("prior_is_x0")),
                                                       maxls=mls, maxiter=mit, stop_at_callback=spec.get("stop_at_callback"),
                                                       nested=bool(spec.get("nested")), inert_fd=spec.get("inert_fd"))
